@@ -736,18 +736,22 @@ Qed.
 
 (** every byte the reference names through a nil mapper lies inside the artifact
     when RawBytes returns *)
+Lemma read_ranges_inbounds r total rs : rmap r = MNil -> forall cur acc bs, Forall okr rs ->
+  read_ranges r total rs cur acc = Ok bs ->
+  Forall (fun x => rlen x = 0 \/ roff x + rlen x <= zlen (acontent (rart r))) rs.
+Proof.
+  intros Mn. induction rs as [|x t IH]; intros cur acc bs F E; [constructor|].
+  inversion F as [|? ? (X0 & X1 & X2) Ft]; subst. cbn [read_ranges] in E. rewrite Mn in E. cbn [resolve1] in E.
+  destruct (read_mapped (rart r) total [x] cur acc) as [[cur' acc']| | |] eqn:M; try discriminate.
+  assert (Fm : Forall inb64 [x]) by (constructor; [split; lia | constructor]).
+  destruct (read_mapped_spec _ _ _ _ _ _ _ Fm M) as (_ & B). inversion B as [|? ? Bx _]; subst.
+  constructor; [exact Bx|]. exact (IH _ _ _ Ft E).
+Qed.
 Lemma ref_rawbytes_inbounds r bs : okref r -> rmap r = MNil -> ref_rawbytes r = Ok bs ->
   Forall (fun x => rlen x = 0 \/ roff x + rlen x <= zlen (acontent (rart r))) (ranges_sm (rranges r)).
 Proof.
   intros O Mn E. unfold ref_rawbytes in E.
-  destruct (ranges_sm_sep _ O) as (_ & F). revert E F.
-  generalize (total_len (ranges_sm (rranges r))) as total. generalize 0 as cur. generalize (@nil Z) as acc.
-  induction (ranges_sm (rranges r)) as [|x t IH]; intros acc cur total E F; [constructor|].
-  inversion F as [|? ? (X0 & X1 & X2) Ft]; subst. cbn [read_ranges] in E. rewrite Mn in E. cbn [resolve1] in E.
-  destruct (read_mapped (rart r) total [x] cur acc) as [[cur' acc']| | |] eqn:M; try discriminate.
-  assert (Fm : Forall inb64 [x]) by (constructor; [split; lia | constructor]).
-  destruct (read_mapped_spec _ _ _ _ _ _ _ Fm M) as (_ & B). inversion B; subst.
-  constructor; [assumption|]. eapply IH; [|exact Ft]. rewrite Mn. exact E.
+  eapply read_ranges_inbounds; [exact Mn | apply ranges_sm_sep; exact O | exact E].
 Qed.
 
 (** neither function returns an error value: bytes or a panic *)
@@ -801,4 +805,50 @@ Proof.
       * split; [discriminate|]. intros (x & [<- | I] & P); [congruence|].
         assert (@OutOfFuel (list Z) = Panic) by (apply IH; exists x; split; assumption). discriminate.
     + split; [|reflexivity]. intros _. exists r. split; [left; reflexivity | exact Er].
+Qed.
+
+(** ** Boolean checkers for the hypotheses (used by closed witnesses and examples) *)
+
+Definition okrb (r : range) : bool := (0 <=? roff r) && (0 <=? rlen r) && (roff r + rlen r <? W64).
+Definition no_overflowb (s : list ref) : bool := forallb (fun r => forallb okrb (rranges r)) s.
+Lemma no_overflowb_spec s : no_overflowb s = true -> NoOverflow s.
+Proof.
+  unfold no_overflowb, NoOverflow, okref. rewrite forallb_forall, Forall_forall.
+  intros H r I. specialize (H r I). rewrite forallb_forall in H. apply Forall_forall.
+  intros x Ix. specialize (H x Ix). unfold okrb in H.
+  apply andb_prop in H. destruct H as (H & H3). apply andb_prop in H. destruct H as (H1 & H2).
+  apply Z.leb_le in H1, H2. apply Z.ltb_lt in H3. unfold okr. tauto.
+Qed.
+
+Definition distk2b (k1 k2 : art * mapper) : bool :=
+  Bool.eqb (aid (fst k1) =? aid (fst k2)) (tname (fst k1) =? tname (fst k2)) &&
+  (negb (aid (fst k1) =? aid (fst k2)) || mapper_eqb (snd k1) (snd k2)).
+Definition distinguishableb (s : list ref) : bool :=
+  forallb (fun k1 => forallb (distk2b k1) (keys s)) (keys s).
+Lemma distinguishableb_spec s : distinguishableb s = true -> Distinguishable s.
+Proof.
+  unfold distinguishableb, Distinguishable, DistK. rewrite forallb_forall.
+  intros H k1 k2 I1 I2. specialize (H k1 I1). rewrite forallb_forall in H. specialize (H k2 I2).
+  unfold distk2b in H. apply andb_prop in H. destruct H as (H1 & H2). apply Bool.eqb_prop in H1.
+  split.
+  - rewrite <- !Z.eqb_eq. rewrite H1. tauto.
+  - intros E. apply Z.eqb_eq in E. rewrite E in H2. cbn [negb orb] in H2. apply mapper_eqb_eq. exact H2.
+Qed.
+
+Lemma has_conflict_in s : has_conflict s = true -> exists a b, In a s /\ In b s /\ cmp_ref a b = CPanic.
+Proof.
+  induction s as [|a t IH]; cbn [has_conflict]; [discriminate|].
+  intros H. apply Bool.orb_true_iff in H. destruct H as [H | H].
+  - apply existsb_exists in H. destruct H as (b & Ib & Hb). exists a, b.
+    split; [left; reflexivity|]. split; [right; exact Ib|]. destruct (cmp_ref a b); try discriminate. reflexivity.
+  - destruct (IH H) as (x & y & Ix & Iy & C). exists x, y. split; [right; exact Ix|]. split; [right; exact Iy | exact C].
+Qed.
+
+(** under the assumption the comparator never panics *)
+Lemma dist_no_conflict s : Distinguishable s -> has_conflict s = false.
+Proof.
+  intros D. destruct (has_conflict s) eqn:C; [|reflexivity].
+  destruct (has_conflict_in s C) as (a & b & Ia & Ib & P).
+  destruct (cmp_ref_dist (keys s) a b D (in_keys _ _ Ia) (in_keys _ _ Ib)) as [(E & _) | [(E & _) | (E & _)]];
+    rewrite E in P; discriminate.
 Qed.
